@@ -155,6 +155,18 @@ def rule_guard(run):
     cow = prog.func('t2thermo.cowat')
     ifb, _ = _bounds_struct(cow)
     box_test = ifb.body[0].test if isinstance(ifb.body[0], ast.If) else None
+    # whatever its shape, the range check must bound the temperature by 350 degC (region 1) somewhere
+    t_upper = []
+    for c in ast.walk(ast.Module(body=ifb.body, type_ignores=[])):
+        if isinstance(c, ast.Compare):
+            env_, _r = constraints(prog, MOD, c)
+            if 't' in env_ and env_['t'].hi != float('inf'): t_upper.append(env_['t'].hi)
+    if not t_upper or min(t_upper) > 350.0:
+        run.violated('t2thermo.cowat :: temperature range limited to 350 degC',
+                     'with bounds on, cowat compares t with %s only; its stated range (and region 1) ends at 350 degC, so states '
+                     'between 350 degC and that limit get a value instead of none' % (sorted(set(t_upper)) or 'nothing'), where=cow.where(ifb))
+        return
+    run.ok('t2thermo.cowat :: temperature range limited to 350 degC', where=cow.where(ifb))
     if box_test is None: raise AnalysisError('cowat: box test not found')
     box, rest = constraints(prog, MOD, box_test)
     side = [v for p, v in _ok_assigns(ifb.body) if p and p[0][1] is True]
